@@ -63,6 +63,10 @@ class Struct:
     def show(self):
         if self.name.endswith("Range") and set(self.fields) == {"start", "end"}:
             return "%s..%s" % (show(self.fields["start"]), show(self.fields["end"]))
+        if self.name.endswith("RangeFrom") and set(self.fields) == {"start"}:
+            return "%s.." % show(self.fields["start"])
+        if self.name.endswith("RangeTo") and set(self.fields) == {"end"}:
+            return "..%s" % show(self.fields["end"])
         return "%s{%s}" % (self.name, ", ".join("%s: %s" % (k, show(v)) for k, v in self.fields.items()))
 
 
@@ -258,9 +262,11 @@ class Interp:
         if isinstance(l, Lit) and isinstance(r, Lit):
             a, b = l.v, r.v
             return Lit({"==": a == b, "!=": a != b, "<": a < b, "<=": a <= b, ">": a > b, ">=": a >= b}[op])
-        if isinstance(l, Variant) and isinstance(r, Variant) and not l.args and not r.args:
-            if op in ("==", "!="):
-                return Lit((l.name == r.name) == (op == "=="))
+        if isinstance(l, Variant) and isinstance(r, Variant) and op in ("==", "!="):
+            if l.name != r.name:
+                return Lit(op == "!=")
+            if not l.args and not r.args:
+                return Lit(op == "==")
         # char classes
         if isinstance(l, CharClass) or isinstance(r, CharClass):
             cc, other = (l, r) if isinstance(l, CharClass) else (r, l)
@@ -858,6 +864,28 @@ def _vec_new(I, a, n, env):
     return VecV([])
 
 
+def _vec_last(I, a, n, env):
+    v = a[0]
+    if isinstance(v, VecV):
+        if v.items:
+            return Variant("Some", [v.items[-1]])
+        if v.base is None:
+            return Variant("None")
+        return Sym("%s.last()" % show(v.base), n.get("ty"))
+    return Sym("%s.last()" % show(v), n.get("ty"))
+
+
+def _vec_is_empty(I, a, n, env):
+    v = a[0]
+    if isinstance(v, VecV):
+        if v.items:
+            return Lit(False)
+        if v.base is None:
+            return Lit(True)
+        return Sym("is_empty(%s)" % show(v.base), "bool")
+    return Sym("%s.is_empty()" % show(v), "bool")
+
+
 def _vec_push(I, a, n, env):
     v = a[0]
     I.effects.append(("push", show_place(n["recv"]), a[1], n))
@@ -914,6 +942,10 @@ MODELS = {
     "core::slice::iter": lambda I, a, n, env: Sym("%s.iter()" % show(a[0]), n.get("ty")),
     "std::vec::Vec::iter": lambda I, a, n, env: Sym("%s.iter()" % show(a[0]), n.get("ty")),
     "std::vec::Vec::push": _vec_push,
+    "core::slice::last_mut": _vec_last,
+    "core::slice::last": _vec_last,
+    "std::vec::Vec::is_empty": _vec_is_empty,
+    "core::slice::is_empty": _vec_is_empty,
     "std::slice::into_vec": _into_vec,
     "std::boxed::Box::new": _transparent,
     "std::boxed::box_new": _transparent,
